@@ -1017,6 +1017,223 @@ def odd_default_stream(ctx, res):
             res.violate("C13:fresh-build-differs:odd-default", "a configuration built afterwards does not observe the declared default", dict(case, fresh=tree_of(c.sub.f)))
 
 
+def declaration_print(schema):
+    """everything a schema declares, as text: field set, every attribute of every field (fields of fields and item schemas included),
+    defaults as they are stored (a factory by name, not by what it returns)"""
+    from cincoconfig.core import BaseField
+    seen = set()
+
+    def show(v, depth=0):
+        if isinstance(v, BaseField) or (isinstance(v, type) and hasattr(v, "__schema__")):
+            target = v.__schema__ if isinstance(v, type) else v
+            if id(target) in seen or depth > 6:
+                return "<%s seen>" % type(target).__name__
+            seen.add(id(target))
+            attrs = {a: show(b, depth + 1) for a, b in sorted(vars(target).items()) if a not in ("_schema",)}
+            return {"type": type(target).__name__, "attrs": attrs}
+        if isinstance(v, dict):
+            return {"dict": [[repr(k), show(x, depth + 1)] for k, x in v.items()]}
+        if isinstance(v, (list, tuple, set, frozenset)):
+            return {type(v).__name__: [show(x, depth + 1) for x in (sorted(v, key=repr) if isinstance(v, (set, frozenset)) else v)]}
+        if callable(v):
+            return "<callable %s>" % getattr(v, "__qualname__", type(v).__name__)
+        if hasattr(v, "_data") and hasattr(v, "_schema"):
+            return {"config": show(dict(v._data), depth + 1)}
+        return repr(v)
+    return show(schema)
+
+
+def declarations_and_decoded_stream(ctx, res):
+    """(a) a schema that declares a default for every kind of field (plain, factory, plaintext defaults that are hashed or encrypted per
+    configuration, containers, containers of containers): nothing it declares changes by building configurations, assigning, loading,
+    validating, saving, resetting or copying them, and a default factory is asked again for every configuration;
+    (b) two configurations (of one schema, and of another one) that load the SAME document bytes holding empty and non-empty
+    containers in positions no typed field copies, in every format: editing what one holds shows neither in the other nor in a
+    configuration that loads the bytes afterwards;
+    (c) deep copies of configurations that hold containers of containers (a list of dicts, of lists, a dict of lists, of dicts of
+    lists): every level of the copy is the copy's own"""
+    import cincoconfig as cc
+    tmp = ctx.tmpdir()
+    kp = os.path.join(tmp, "decl.key")
+    with open(kp, "wb") as fh:
+        fh.write(bytes(range(32)))
+    # (a)
+    counter = {"n": 0}
+
+    def next_secret():
+        counter["n"] += 1
+        return "factory-secret-%d" % counter["n"]
+    item = cc.Schema()
+    item.name = cc.StringField(default="n")
+    item.pw = cc.ChallengeField("md5", default="item-default")
+    s = cc.Schema()
+    s.name = cc.StringField(default="svc")
+    s.port = cc.PortField(default=8080)
+    s.ratio = cc.FloatField(default=0.5)
+    s.flag = cc.BoolField(default=True)
+    s.blob = cc.BytesField(default=b"\x00\x01")
+    s.password = cc.ChallengeField("sha256", default="changeme")
+    s.rolling = cc.ChallengeField("sha1", default=next_secret)
+    s.token = cc.SecureField(method="xor", default="default-token")
+    s.tags = cc.ListField(cc.StringField(), default=lambda: ["a"])
+    s.fixed = cc.ListField(cc.IntField(), default=[1, 2])
+    s.opts = cc.DictField(cc.StringField(), cc.IntField(), default={"k": 1})
+    s.grid = cc.ListField(cc.ListField(cc.IntField()), default=[[1], [2, 3]])
+    s.limits = cc.ListField(cc.DictField(cc.StringField(), cc.IntField()), default=[{"cpu": 1}])
+    s.items = cc.ListField(item, default=lambda: [])
+    s.account.password = cc.ChallengeField("sha512", default="changeme")
+    s.account.level = cc.LogLevelField(default="info")
+    s.host = cc.HostnameField(default="localhost")
+    s.net = cc.IPv4NetworkField(default="10.0.0.0/8")
+    s.url = cc.UrlField(default="http://example.com")
+    before = declaration_print(s)
+    case = {"stream": "declarations"}
+    res.case("declarations", kind="declarations")
+    try:
+        a = s(key_filename=kp)
+        first_rolling = a.rolling
+        if declaration_print(s) != before:
+            res.violate("C13:schema-changed:build", "building a configuration changed what the schema declares", dict(case, diff=first_diff(before, declaration_print(s)) or "differs"))
+        made_for_a = counter["n"]
+        b = s(key_filename=kp)
+
+        def verifies(d, k):
+            try:
+                d.challenge("factory-secret-%d" % k)
+                return True
+            except Exception:  # noqa
+                return False
+        ok_factory = any(verifies(b.rolling, k) for k in range(made_for_a + 1, counter["n"] + 1)) and any(verifies(first_rolling, k) for k in range(1, made_for_a + 1))
+        if not ok_factory:
+            res.violate("C13:default-factory-frozen", "a default factory was not asked again for the second configuration (the first configuration's value was kept on the field)",
+                        dict(case, factory_calls=counter["n"]))
+        a.password = "other"
+        a.items = [{"name": "x"}, {}]
+        a.tags.append("b")
+        a.grid[0].append(9)
+        a.limits[0]["mem"] = 2
+        a.opts["j"] = 2
+        a.load_tree({"name": "loaded", "account": {"level": "debug"}, "fixed": [5]})
+        a.validate()
+        for fmt in ("json", "yaml", "bson", "xml", "pickle"):
+            c = s(key_filename=kp)
+            c.loads(a.dumps(format=fmt), format=fmt)
+        for key in ("password", "rolling", "token", "tags", "opts", "grid", "limits", "account.password", "items", "blob"):
+            cc.reset_value(a, key)
+        dup = copy.deepcopy(a)
+        dup.tags.append("copy")
+        a.to_tree(sensitive_mask="*")
+        after = declaration_print(s)
+        if after != before:
+            res.violate("C13:schema-changed:history", "a history of operations on configurations changed what the schema declares (a default, an option, the field set)",
+                        dict(case, diff=first_diff(before, after) or "differs"))
+        third = s(key_filename=kp)
+        if third.tags != ["a"] or third.grid != [[1], [2, 3]] or dict(third.opts) != {"k": 1} or [dict(x) for x in third.limits] != [{"cpu": 1}] or third.fixed != [1, 2]:
+            res.violate("C13:fresh-build-differs", "a configuration built after such a history does not hold the declared defaults", dict(case, tree=repr(third.to_tree())[:300]))
+    except Exception as e:  # noqa
+        res.violate("C13:schema-changed:history", "the history over a fully declared schema raised %s" % type(e).__name__, dict(case, error=str(e)[:160]))
+    # (b)
+    for fmt in ("json", "yaml", "bson", "xml", "pickle"):
+        u = cc.Schema(dynamic=True)
+        u.name = cc.StringField(default="n")
+        u.tags = cc.ListField(default=lambda: [])
+        u.opts = cc.DictField(default=lambda: {})
+        u.anything = cc.Field()
+        u.sub.more = cc.ListField(default=lambda: [])
+        other = cc.Schema()
+        other.items = cc.ListField(default=lambda: [])
+        other.opts = cc.DictField(default=lambda: {})
+        F_ = cc.ConfigFormat.get(fmt)
+        for content in ({"name": "svc", "tags": [], "opts": {}, "anything": {"k": []}, "extra": {"plugins": []}, "sub": {"more": []}},
+                        {"name": "svc", "tags": ["t"], "opts": {"depth": {"x": [1]}}, "anything": [[], {}], "extra": [{}], "sub": {"more": [[]]}}):
+            doc = F_.dumps(None, content)
+            doc2 = F_.dumps(None, {"items": [], "opts": {}})
+            case = {"stream": "decoded-sharing", "fmt": fmt, "content": content}
+            res.case(stable(case), kind="decoded-sharing:" + fmt)
+            try:
+                a, b = u(), u()
+                a.loads(doc, format=fmt)
+                b.loads(doc, format=fmt)
+                o1 = other()
+                o1.loads(doc2, format=fmt)
+                first, first_o = tree_of(b), tree_of(o1)
+
+                def scribble(v):
+                    if isinstance(v, dict):
+                        for x in list(v.values()):
+                            scribble(x)
+                        v["scribbled"] = ["blue"]
+                    elif isinstance(v, list):
+                        for x in v:
+                            scribble(x)
+                        v.append("audit")
+                for held in (a.tags, a.opts, a.anything, a.extra, a.sub.more):
+                    scribble(held)
+                c = u()
+                c.loads(doc, format=fmt)
+                o2 = other()
+                o2.loads(doc2, format=fmt)
+            except Exception as e:  # noqa
+                res.violate("C13:other-config-changed:decoded", "loading one document into several configurations raised %s" % type(e).__name__, dict(case, error=str(e)[:120]))
+                continue
+            if tree_of(b) != first or tree_of(o1) != first_o:
+                res.violate("C13:other-config-changed:decoded", "editing the containers one configuration got from a document changed another configuration that loaded the same bytes",
+                            dict(case, other=tree_of(b)))
+            elif tree_of(c) != first or tree_of(o2) != first_o:
+                res.violate("C13:fresh-build-differs:decoded", "a configuration that loads the same bytes afterwards does not hold the document's content", dict(case, later=tree_of(c)))
+    # (c)
+    n = cc.Schema()
+    n.limits = cc.ListField(cc.DictField(cc.StringField(), cc.IntField()), default=lambda: [])
+    n.grid = cc.ListField(cc.ListField(cc.IntField()), default=lambda: [])
+    n.by_name = cc.DictField(cc.StringField(), cc.ListField(cc.IntField()), default=dict)
+    n.deep = cc.DictField(cc.StringField(), cc.DictField(cc.StringField(), cc.ListField(cc.StringField())), default=dict)
+    n.raw = cc.ListField(default=lambda: [])
+    N = cc.make_type(n, "C13Nested")
+    root = cc.Schema()
+    root.groups = cc.ListField(N, default=lambda: [])
+    root.one = n
+    for direction in ("edit-copy", "edit-original"):
+        orig = root()
+        for holder in (orig.one,):
+            holder.limits = [{"cpu": 1}, {"mem": 2}]
+            holder.grid = [[1], [2, 3]]
+            holder.by_name = {"a": [1]}
+            holder.deep = {"x": {"y": ["z"]}}
+            holder.raw = [[1], {"k": [2]}]
+        orig.groups = [{"limits": [{"cpu": 1}], "grid": [[1]], "by_name": {"a": [1]}, "deep": {"x": {"y": ["z"]}}, "raw": [[1], {"k": [2]}]}]
+        dup = copy.deepcopy(orig)
+        edited, kept = (dup, orig) if direction == "edit-copy" else (orig, dup)
+        want = tree_of(kept)
+        case = {"stream": "nested-container-copies", "direction": direction}
+        res.case(stable(case), kind="nested-container-copies")
+        try:
+            for holder in (edited.one, edited.groups[0]):
+                holder.limits[0]["cpu"] = 99
+                holder.limits[0]["new"] = 5
+                holder.grid[0].append(7)
+                holder.by_name["a"].append(8)
+                holder.deep["x"]["y"].append("w")
+                holder.deep["x"]["v"] = ["u"]
+                holder.raw[0].append(3)
+                holder.raw[1]["k"].append(4)
+        except Exception as e:  # noqa
+            res.violate("C13:other-config-changed:copy", "editing a deep copy raised %s" % type(e).__name__, dict(case, error=str(e)[:120]))
+            continue
+        if tree_of(kept) != want:
+            res.violate("C13:other-config-changed:copy", "editing nested containers of a configuration changed its deep copy (or the original it was copied from)",
+                        dict(case, diff=first_diff(want, tree_of(kept)) or "differs"))
+            continue
+        shared = []
+        for name in ("limits", "grid"):
+            for x, y in zip(getattr(orig.groups[0], name), getattr(dup.groups[0], name)):
+                if x is y:
+                    shared.append("groups[0].%s item" % name)
+                elif getattr(y, "cfg", None) is not None and getattr(y, "cfg") is orig.groups[0]:
+                    shared.append("groups[0].%s item owned by the original" % name)
+        if shared:
+            res.violate("C13:other-config-changed:copy", "a deep copy shares container objects with the original", dict(case, shared=shared))
+
+
 def run(ctx, n_quick=250, n_thorough=8000):
     import extract
     res = Result()
@@ -1038,6 +1255,7 @@ def run(ctx, n_quick=250, n_thorough=8000):
     guard(res, "C13", rejection_rendering_stream, ctx, res)
     guard(res, "C13", include_sharing_stream, ctx, res)
     guard(res, "C13", extra_field_copies_stream, ctx, res)
+    guard(res, "C13", declarations_and_decoded_stream, ctx, res)
     replies = ctx.model(reqs)
     if replies is not None:
         for (case, trace), r in zip(pend, replies):
